@@ -11,7 +11,7 @@ func init() {
 		Thor: func() []Inst {
 			return []Inst{inst("util", "VH_C29_next"), inst("util", "VH_C29_new"), inst("util", "VH_C29_state"),
 				inst("transactions", "VH_C29_store", 4), Inst{Pkg: "transactions", Fn: "VH_C29_store", Args: []int64{5}, MaxPaths: 400000},
-				Inst{Pkg: "util", Fn: "VH_C29_concurrent_next", Args: []int64{3}, MaxPaths: 100000}, Inst{Pkg: "util", Fn: "VH_C29_concurrent_wrap", Args: []int64{3}, MaxPaths: 100000}, Inst{Pkg: "transactions", Fn: "VH_C29_concurrent_store", Args: []int64{3}, MaxPaths: 100000}}
+				Inst{Pkg: "util", Fn: "VH_C29_concurrent_next", Args: []int64{3}, MaxPaths: 100000}, inst("util", "VH_C29_concurrent_wrap", 2), Inst{Pkg: "transactions", Fn: "VH_C29_concurrent_store", Args: []int64{3}, MaxPaths: 100000}}
 		},
 		Asserts: []string{"C29.next_returns_state", "C29.next_wraps", "C29.next_increments", "C29.next_stays_in_range", "C29.overflow_exactly_after_wrap",
 			"C29.consecutive_distinct", "C29.new_starts_at_min", "C29.first_is_min", "C29.state_swap", "C29.store_get_found", "C29.store_get_value",
@@ -23,7 +23,7 @@ func init() {
 			"store":       "sequences of 3..4 (thorough 4..5) operations Store/Delete/Get/StoreByType/DeleteByType/GetByType with symbolic kinds and symbolic keys against a reference association list",
 			"atomicity":   "pre-emptive interleavings (a context switch offered before every shared access and lock operation; context bound 2, thorough 3): two goroutines taking two IDs each get the four consecutive IDs, each once, in order per goroutine; two goroutines storing / deleting / reading distinct symbolic keys leave exactly the sequential result; no lock-free conflicting accesses",
 		},
-		Outside: []string{"store histories longer than 5 operations", "more than two goroutines, more than 3 pre-emptions", "weak-memory behaviours", "schedule-dependent counterexamples are confirmed by concrete re-execution of the recorded schedule in the engine, not natively"},
+		Outside: []string{"store histories longer than 5 operations", "more than two goroutines, more than 3 pre-emptions (the wrapping harness: more than 2 - context bound 3 did not finish within 10 minutes there)", "weak-memory behaviours", "schedule-dependent counterexamples are confirmed by concrete re-execution of the recorded schedule in the engine, not natively"},
 	})
 }
 
